@@ -275,6 +275,9 @@ func c17Probe(ctx *core.Ctx, ti int, t *rt.Table, router string, twin, filtered 
 				ctx.Violation(ti, "c17:options-invokes:"+router, fmt.Sprintf("OPTIONS %q ran a route function although OPTIONSFilter is installed", u), doc)
 			}
 			h := oo.Rec.Hdr()
+			if len(h["Allow"]) != 1 || len(h["Access-Control-Allow-Methods"]) != 1 {
+				ctx.Violation(ti, "c17:options-header-count:"+router, fmt.Sprintf("OPTIONS %q: %d Allow and %d Access-Control-Allow-Methods header fields (one each expected)", u, len(h["Allow"]), len(h["Access-Control-Allow-Methods"])), doc)
+			}
 			allow := setNoOptions(h["Allow"])
 			acam := setNoOptions(h["Access-Control-Allow-Methods"])
 			if allow != want || acam != want {
